@@ -91,6 +91,9 @@ func H_C11_location() {
 	}
 	c := WithConfig(opts...)
 	name := "Test" + symSuffix("name", n)
+	if vxrt.Param("percent", 0) == 1 && vxrt.Bool("name-contains-percent-d") {
+		name += "%d"
+	}
 	if vxrt.Bool("subtest") {
 		name += "/" + symSuffix("sub", n)
 	}
@@ -103,6 +106,10 @@ func H_C11_location() {
 	if api == 2 && cc.extension == "" {
 		cc.extension = ".json"
 	}
+	ccBefore := cc
+	defer func() {
+		vxrt.Assert(cfgEqual(cc, ccBefore) && cfgEqual(*c, ccBefore) || api == 2 && cfgEqual(cc, ccBefore), "C12:config-unchanged-by-path-resolution")
+	}()
 	helpers := vxrt.Choice("helper-frames", 4)
 	var got string
 	switch helpers {
